@@ -1,6 +1,6 @@
 """C-accelerator side of the rules (clang AST of the build configuration)."""
 from ..core import AnalysisError
-from ..cfront import (unit, ccfg, show, calls, c_assigned, c_reaching,
+from ..cfront import (unit, ccfg, show, calls, c_assigned, c_reaching, c_resolve,
                       node_calls, nodes_calling, returns, is_var, is_field,
                       witness, E)
 
@@ -170,15 +170,18 @@ def verify_compare(rep, u, rule='INV-5'):
         c = node_calls(cmpn[0], 'PyObject_RichCompareBool')[0]
         a, b, op = c.a[1]
         opv = op.a[0] if op.k == 'const' else None
-        sides = {show(a), show(b)}
-        gen = [x for x in (a, b) if is_var(x)]
-        okargs = 'self->_verify_generations' in sides and len(gen) == 1
+        ra, rb = c_resolve(g, cmpn[0], a), c_resolve(g, cmpn[0], b)
+        sides = [show(ra), show(rb)]
+        okargs = 'self->_verify_generations' in sides
+        other = [x for x in (ra, rb) if show(x) != 'self->_verify_generations']
         okgen = False
-        if okargs:
-            defs = c_reaching(g, cmpn[0], gen[0].a[0])
-            okgen = bool(defs) and all(
-                v is not None and v.k == 'call' and v.a[0] == '_generations_tuple'
-                and show(v.a[1][0]) == 'self->_verify_ro' for d, v in defs)
+        if okargs and len(other) == 1:
+            v = other[0]
+            okgen = v is not None and v.k == 'call' and v.a[0] == '_generations_tuple'
+            if okgen:
+                gn = [n for n in g.nodes if node_calls(n, '_generations_tuple')]
+                arg = c_resolve(g, gn[0], v.a[1][0]) if gn else v.a[1][0]
+                okgen = show(arg) == 'self->_verify_ro'
         var = list(c_assigned(cmpn[0]))[0] if c_assigned(cmpn[0]) else None
         # unchanged exit
         unchanged = 0 if opv == 3 else (1 if opv == 2 else None)
@@ -338,12 +341,16 @@ def c06(rep):
     for n in g.nodes:
         if n.e is not None and n.e.k == 'expr' and n.e.a[0].k == 'assign' and \
                 n.e.a[0].a[1].k == 'field':
-            st[n.e.a[0].a[1].a[1]] = n.e.a[0].a[2]
-    ok = '_verify_generations' in st and '_verify_ro' in st and \
-        show(st['_verify_generations']) == '_generations_tuple(%s)' % show(st['_verify_ro'])
+            st[n.e.a[0].a[1].a[1]] = (n, n.e.a[0].a[2])
+    ok = '_verify_generations' in st and '_verify_ro' in st
+    if ok:
+        gv = c_resolve(g, st['_verify_generations'][0], st['_verify_generations'][1])
+        rv = st['_verify_ro'][1]
+        ok = gv is not None and gv.k == 'call' and gv.a[0] == '_generations_tuple' \
+            and show(gv.a[1][0]) == show(rv)
     ccheck(rep, 'R06.5', 'verify_changed', ok,
            'generations are taken from exactly the registries stored in '
-           '_verify_ro: %s' % {k: show(v) for k, v in st.items()},
+           '_verify_ro: %s' % {k: show(v[1]) for k, v in st.items()},
            construct='generations')
     verify_first(rep, u, rule='R06.6')
     verify_compare(rep, u, rule='R06.6')
